@@ -49,6 +49,11 @@ CLAIMED = {
    note="matrices 2 x 2, d <= 4, orders <= 2 (quick) / 3 (thorough); PSD for n >= 3 and _reduce_npts not applicable; scipy cdist/pdist replaced by their definitions.",
    technique="symbolic execution of the kernels and of scikit-learn's kernel base classes + automatic differentiation + z3",
    design="4/C15"),
+ "C20": dict(
+   text="FFTWrapper.__init__/call are executed symbolically from source; every libfft_wrapper call runs clang's LLVM IR of /repo's current cider_fft.c (FFTW backend) in the symbolic interpreter with bounds-checked heap buffers, and FFTW itself is replaced by its documented contract (advanced-interface layout rules howmany/stride/dist, padded in-place r2c layout, unnormalised DFT with exact radical twiddle factors). On symbolic input data z3 decides element by element that the output equals the mathematically defined DFT (r2c: the half spectrum; c2r of a half spectrum of y: N*y), that advertised shapes hold, that forward-then-backward returns N*x, that a wrongly shaped input raises ValueError, and (QF_BV) that the (int) casts of sizes handed to FFTW do not truncate below 2^31 elements. Counterexamples are replayed on the freshly compiled real cider_fft.c linked against a reference DFT and compared with numpy.fft.",
+   note="dimension tuples enumerated: (3),(4),(2,3) quick; 12 tuples up to (2,3,4) with sizes dividing 12 thorough; ntransform 1-2 (quick) / 1-3 (thorough); all 16 flag combinations; doubles as exact reals; MKL backend, FFTW's own correctness and sizes beyond the list are outside.",
+   technique="symbolic execution of clang LLVM IR (own interpreter) through the repository's ctypes wrapper with a contract model of FFTW + z3; bit-vector query for the int casts; replay against the freshly compiled library",
+   design="4/C20"),
  "C09": dict(
    text="Aliasing: every public pure-Python entry (exponents, s2/alpha routines, all map classes, normaliser list, semilocal plan, NLDF plan, eval_xc_cider) is called with caller-owned symbolic arrays and z3 decides on every feasible path that the arrays hold the same terms afterwards. Batching/blocking: the real nr_rks/nr_uks/nr_rks_nldf/nr_uks_nldf are executed symbolically (nao=2, 2 grid points, nset=2; one block of 2 vs two blocks of 1) and compared term-by-term with separate calls on fresh objects. History: interleaved/repeated calls on one plan object and a failed-then-successful call on one kernel object against fresh objects.",
    note="PySCF primitives replaced by numpy reference implementations; generator and eval_xc_cider by contract stubs that keep the per-spin cache statefulness; real max_memory->blksize arithmetic and SDMX buffers outside.",
